@@ -175,10 +175,12 @@ class Gen:
         return toks, text
 
     # ---------------- nodes
-    def text_node(self, attr=False):
+    def text_node(self, attr=False, other_quote=""):
         pool = "abc xyz 0123 .,;:!?-_=+*/\n\t" if not attr else "abc xyz 012 .,;:!-_"
         if not attr:
             pool += "&>'\")]"
+        elif other_quote:
+            pool += other_quote * 3        # inside an attribute value the OTHER quote character is ordinary text (true="it's")
         s = "".join(self.r.choice(pool) for _ in range(self.r.randint(1, 8)))
         return {"t": "text", "s": U(s)}, s
 
@@ -193,10 +195,10 @@ class Gen:
         src = "{math:" + t + "}"
         return {"t": "math", "e": k, "src": U(src)}, src
 
-    def inline(self, doc, env, attr=False):
+    def inline(self, doc, env, attr=False, other_quote=""):
         r = self.r.random()
         if r < 0.4:
-            return self.text_node(attr)
+            return self.text_node(attr, other_quote)
         if r < 0.8:
             return self.var_node(doc, env)
         return self.math_node(doc, env)
@@ -224,13 +226,14 @@ class Gen:
         if r < 0.70:    # inline if
             k, t = self.expr(doc, env)
             q = self.r.choice("\"'")
+            oq = "'" if q == '"' else '"'
             T, F, ts, fs = [], [], "", ""
             for _ in range(self.r.randint(0, 2)):
-                n, s = self.inline(doc, env, attr=True)
+                n, s = self.inline(doc, env, attr=True, other_quote=oq)
                 T.append(n)
                 ts += s
             for _ in range(self.r.randint(0, 2)):
-                n, s = self.inline(doc, env, attr=True)
+                n, s = self.inline(doc, env, attr=True, other_quote=oq)
                 F.append(n)
                 fs += s
             # an attribute that is present must not be empty and both orders are documented
